@@ -13,7 +13,7 @@ variable {f : Fmt}
 structure BInv (f : Fmt) (st : List B) (envQ : List ℚ) : Prop where
   len : st.length = envQ.length
   rel : ∀ (i : Nat) (b : B), st[i]? = some b → ∃ q, envQ[i]? = some q ∧ |q| ≤ 2 ^ b.hi ∧ f.emin ≤ b.hi ∧
-    (∀ kl, b.lo = some kl → (2 : ℚ) ^ kl ≤ |q|)
+    (∀ kl, b.lo = some kl → (2 : ℚ) ^ kl ≤ |q|) ∧ (b.fin = true → |q| ≤ Lmax f)
 
 lemma clamp_ge (f : Fmt) (k : Int) : f.emin ≤ clamp f k := le_max_right _ _
 lemma pow_clamp (f : Fmt) (k : Int) : (2 : ℚ) ^ k ≤ 2 ^ clamp f k := zpow_le_zpow_right₀ (by norm_num) (le_max_left _ _)
@@ -32,14 +32,15 @@ lemma abs_rn_le_pow {q : QFmt} {r : ℚ → ℚ} (hr : IsRN q r) {k : ℤ} (hk :
 
 lemma argB_rel {st : List B} {envQ : List ℚ} (hinv : BInv f st envQ) {args : List Nat} {i : Nat} {b : B}
     (h : argB st args i = some b) :
-    ∃ q, (args[i]? >>= fun j => envQ[j]?) = some q ∧ |q| ≤ 2 ^ b.hi ∧ f.emin ≤ b.hi ∧ (∀ kl, b.lo = some kl → (2 : ℚ) ^ kl ≤ |q|) := by
+    ∃ q, (args[i]? >>= fun j => envQ[j]?) = some q ∧ |q| ≤ 2 ^ b.hi ∧ f.emin ≤ b.hi ∧ (∀ kl, b.lo = some kl → (2 : ℚ) ^ kl ≤ |q|) ∧
+      (b.fin = true → |q| ≤ Lmax f) := by
   unfold argB at h
   cases hj : args[i]? with
   | none => simp [hj] at h
   | some j =>
     simp only [hj] at h
-    obtain ⟨q, h1, h2, h3, h4⟩ := hinv.rel j b h
-    exact ⟨q, by simp [h1], h2, h3, h4⟩
+    obtain ⟨q, h1, h2, h3, h4, h5⟩ := hinv.rel j b h
+    exact ⟨q, by simp [h1], h2, h3, h4, h5⟩
 
 lemma q2b_le (b : Bool) : |q2b b| ≤ (2 : ℚ) ^ clamp f 0 := by
   have : (1 : ℚ) ≤ 2 ^ clamp f 0 := by
@@ -53,7 +54,8 @@ set_option maxHeartbeats 1000000 in
 theorem stepB_sound (hf : WF f) {r : ℚ → ℚ} (hr : IsRN (qf f hf.hp) r) (E : List Int) (insQ : List ℚ)
     (hE : ∀ (i : Nat) (k : Int), E[i]? = some k → ∃ q, insQ[i]? = some q ∧ |q| ≤ 2 ^ k)
     (st : List B) (envQ : List ℚ) (hinv : BInv f st envQ) (n : Node) (b : B) (hb : stepB f E st n = some b) :
-    ∃ q, evalNodeQ f r insQ envQ n = some q ∧ |q| ≤ 2 ^ b.hi ∧ f.emin ≤ b.hi ∧ (∀ kl, b.lo = some kl → (2 : ℚ) ^ kl ≤ |q|) := by
+    ∃ q, evalNodeQ f r insQ envQ n = some q ∧ |q| ≤ 2 ^ b.hi ∧ f.emin ≤ b.hi ∧ (∀ kl, b.lo = some kl → (2 : ℚ) ^ kl ≤ |q|) ∧
+      (b.fin = true → |q| ≤ Lmax f) := by
   have hemq : (qf f hf.hp).emin = f.emin := rfl
   unfold stepB at hb
   unfold evalNodeQ
@@ -65,7 +67,7 @@ theorem stepB_sound (hf : WF f) {r : ℚ → ℚ} (hr : IsRN (qf f hf.hp) r) (E 
       simp only [hk, Option.map_some, Option.some.injEq] at hb
       subst hb
       obtain ⟨q, h1, h2⟩ := hE n.imm k hk
-      exact ⟨q, h1, le_trans h2 (pow_clamp f k), clamp_ge f k, fun kl h => by cases h⟩
+      exact ⟨q, h1, le_trans h2 (pow_clamp f k), clamp_ge f k, (fun kl h => by cases h), (fun h => by cases h)⟩
   case const =>
     cases hd : decode f n.imm with
     | nan => simp [hd] at hb
@@ -76,15 +78,16 @@ theorem stepB_sound (hf : WF f) {r : ℚ → ℚ} (hr : IsRN (qf f hf.hp) r) (E 
       have habs : |valQ s m e| = (m : ℚ) * 2 ^ e := by
         have h2e : (0 : ℚ) < 2 ^ e := by positivity
         cases s <;> simp [valQ, abs_mul, abs_of_pos h2e]
+      have hfinL : |valQ s m e| ≤ Lmax f := by rw [habs]; exact decode_le_Lmax f hf n.imm s m e hd
       by_cases hm : m = 0
       · simp only [hm, if_true, Option.some.injEq] at hb
         subst hb
-        refine ⟨by rw [habs, hm]; simp; positivity, le_refl _, fun kl h => by cases h⟩
+        refine ⟨by rw [habs, hm]; simp; positivity, le_refl _, (fun kl h => by cases h), (fun _ => hfinL)⟩
       · simp only [hm, if_false, Option.some.injEq] at hb
         subst hb
         obtain ⟨h1, h2, h3⟩ := bitLen_bounds (Nat.pos_of_ne_zero hm)
         have h2e : (0 : ℚ) < 2 ^ e := by positivity
-        refine ⟨?_, clamp_ge f _, ?_⟩
+        refine ⟨?_, clamp_ge f _, ?_, fun _ => hfinL⟩
         · rw [habs]
           refine le_trans ?_ (pow_clamp f _)
           rw [zpow_add₀ (by norm_num : (2 : ℚ) ≠ 0), zpow_natCast, mul_comm ((2 : ℚ) ^ e)]
@@ -100,7 +103,7 @@ theorem stepB_sound (hf : WF f) {r : ℚ → ℚ} (hr : IsRN (qf f hf.hp) r) (E 
   case bconst =>
     split at hb
     · cases hb
-      exact ⟨_, rfl, q2b_le _, clamp_ge f 0, fun kl h => by cases h⟩
+      exact ⟨_, rfl, q2b_le _, clamp_ge f 0, (fun kl h => by cases h), (fun h => by cases h)⟩
     · cases hb
   case add =>
     cases ha : argB st n.args 0 with
@@ -111,10 +114,10 @@ theorem stepB_sound (hf : WF f) {r : ℚ → ℚ} (hr : IsRN (qf f hf.hp) r) (E 
       | some b' =>
         simp only [ha, hbb, Option.some.injEq] at hb
         subst hb
-        obtain ⟨qa, e1, h1, g1, -⟩ := argB_rel hinv ha
-        obtain ⟨qb, e2, h2, g2, -⟩ := argB_rel hinv hbb
+        obtain ⟨qa, e1, h1, g1, -, fqa⟩ := argB_rel hinv ha
+        obtain ⟨qb, e2, h2, g2, -, fqb⟩ := argB_rel hinv hbb
         simp only [e1, e2, Option.bind_eq_bind, Option.bind_some]
-        refine ⟨_, rfl, ?_, clamp_ge f _, fun kl h => by cases h⟩
+        refine ⟨_, rfl, ?_, clamp_ge f _, (fun kl h => by cases h), (fun h => by cases h)⟩
         apply abs_rn_le_pow hr (clamp_ge f _)
         refine le_trans ?_ (pow_clamp f _)
         have hm1 : (2 : ℚ) ^ a.hi ≤ 2 ^ max a.hi b'.hi := zpow_le_zpow_right₀ (by norm_num) (le_max_left _ _)
@@ -131,10 +134,10 @@ theorem stepB_sound (hf : WF f) {r : ℚ → ℚ} (hr : IsRN (qf f hf.hp) r) (E 
       | some b' =>
         simp only [ha, hbb, Option.some.injEq] at hb
         subst hb
-        obtain ⟨qa, e1, h1, g1, -⟩ := argB_rel hinv ha
-        obtain ⟨qb, e2, h2, g2, -⟩ := argB_rel hinv hbb
+        obtain ⟨qa, e1, h1, g1, -, fqa⟩ := argB_rel hinv ha
+        obtain ⟨qb, e2, h2, g2, -, fqb⟩ := argB_rel hinv hbb
         simp only [e1, e2, Option.bind_eq_bind, Option.bind_some]
-        refine ⟨_, rfl, ?_, clamp_ge f _, fun kl h => by cases h⟩
+        refine ⟨_, rfl, ?_, clamp_ge f _, (fun kl h => by cases h), (fun h => by cases h)⟩
         apply abs_rn_le_pow hr (clamp_ge f _)
         refine le_trans ?_ (pow_clamp f _)
         have hm1 : (2 : ℚ) ^ a.hi ≤ 2 ^ max a.hi b'.hi := zpow_le_zpow_right₀ (by norm_num) (le_max_left _ _)
@@ -151,10 +154,10 @@ theorem stepB_sound (hf : WF f) {r : ℚ → ℚ} (hr : IsRN (qf f hf.hp) r) (E 
       | some b' =>
         simp only [ha, hbb, Option.some.injEq] at hb
         subst hb
-        obtain ⟨qa, e1, h1, g1, -⟩ := argB_rel hinv ha
-        obtain ⟨qb, e2, h2, g2, -⟩ := argB_rel hinv hbb
+        obtain ⟨qa, e1, h1, g1, -, fqa⟩ := argB_rel hinv ha
+        obtain ⟨qb, e2, h2, g2, -, fqb⟩ := argB_rel hinv hbb
         simp only [e1, e2, Option.bind_eq_bind, Option.bind_some]
-        refine ⟨_, rfl, ?_, clamp_ge f _, fun kl h => by cases h⟩
+        refine ⟨_, rfl, ?_, clamp_ge f _, (fun kl h => by cases h), (fun h => by cases h)⟩
         apply abs_rn_le_pow hr (clamp_ge f _)
         refine le_trans ?_ (pow_clamp f _)
         rw [abs_mul, zpow_add₀ (by norm_num : (2 : ℚ) ≠ 0)]
@@ -172,14 +175,14 @@ theorem stepB_sound (hf : WF f) {r : ℚ → ℚ} (hr : IsRN (qf f hf.hp) r) (E 
         | some kl =>
           simp only [hlo, Option.map_some, Option.some.injEq] at hb
           subst hb
-          obtain ⟨qa, e1, h1, g1, -⟩ := argB_rel hinv ha
-          obtain ⟨qb, e2, h2, g2, l2⟩ := argB_rel hinv hbb
+          obtain ⟨qa, e1, h1, g1, -, fqa⟩ := argB_rel hinv ha
+          obtain ⟨qb, e2, h2, g2, l2, fqb⟩ := argB_rel hinv hbb
           have hl := l2 kl hlo
           have hqb : qb ≠ 0 := by
             intro h0; rw [h0] at hl; simp at hl
             exact absurd hl (not_le.mpr (by positivity))
           simp only [e1, e2, Option.bind_eq_bind, Option.bind_some, hqb, if_false]
-          refine ⟨_, rfl, ?_, clamp_ge f _, fun kl h => by cases h⟩
+          refine ⟨_, rfl, ?_, clamp_ge f _, (fun kl h => by cases h), (fun h => by cases h)⟩
           apply abs_rn_le_pow hr (clamp_ge f _)
           refine le_trans ?_ (pow_clamp f _)
           rw [abs_div, zpow_sub₀ (by norm_num : (2 : ℚ) ≠ 0)]
@@ -190,19 +193,19 @@ theorem stepB_sound (hf : WF f) {r : ℚ → ℚ} (hr : IsRN (qf f hf.hp) r) (E 
     | some a =>
       simp only [ha, Option.map_some, Option.some.injEq] at hb
       subst hb
-      obtain ⟨qa, e1, h1, g1, l1⟩ := argB_rel hinv ha
+      obtain ⟨qa, e1, h1, g1, l1, fqa⟩ := argB_rel hinv ha
       simp only [e1, Option.bind_eq_bind, Option.bind_some]
-      exact ⟨_, rfl, by rwa [abs_neg], g1, fun kl h => by rw [abs_neg]; exact l1 kl h⟩
+      exact ⟨_, rfl, by rwa [abs_neg], g1, (fun kl h => by rw [abs_neg]; exact l1 kl h), (fun h => by rw [abs_neg]; exact fqa h)⟩
   case abs =>
     cases ha : argB st n.args 0 with
     | none => simp [ha] at hb
     | some a =>
       simp only [ha, Option.map_some, Option.some.injEq] at hb
       subst hb
-      obtain ⟨qa, e1, h1, g1, l1⟩ := argB_rel hinv ha
+      obtain ⟨qa, e1, h1, g1, l1, fqa⟩ := argB_rel hinv ha
       simp only [e1, Option.bind_eq_bind, Option.bind_some]
       have e : |if qa < 0 then -qa else qa| = |qa| := by split <;> simp
-      exact ⟨_, rfl, by rwa [e], g1, fun kl h => by rw [e]; exact l1 kl h⟩
+      exact ⟨_, rfl, by rwa [e], g1, (fun kl h => by rw [e]; exact l1 kl h), (fun h => by rw [e]; exact fqa h)⟩
   case pymax =>
     cases ha : argB st n.args 0 with
     | none => simp [ha] at hb
@@ -212,13 +215,18 @@ theorem stepB_sound (hf : WF f) {r : ℚ → ℚ} (hr : IsRN (qf f hf.hp) r) (E 
       | some b' =>
         simp only [ha, hbb, Option.some.injEq] at hb
         subst hb
-        obtain ⟨qa, e1, h1, g1, -⟩ := argB_rel hinv ha
-        obtain ⟨qb, e2, h2, g2, -⟩ := argB_rel hinv hbb
+        obtain ⟨qa, e1, h1, g1, -, fqa⟩ := argB_rel hinv ha
+        obtain ⟨qb, e2, h2, g2, -, fqb⟩ := argB_rel hinv hbb
         simp only [e1, e2, Option.bind_eq_bind, Option.bind_some]
         have hm1 : (2 : ℚ) ^ a.hi ≤ 2 ^ max a.hi b'.hi := zpow_le_zpow_right₀ (by norm_num) (le_max_left _ _)
         have hm2 : (2 : ℚ) ^ b'.hi ≤ 2 ^ max a.hi b'.hi := zpow_le_zpow_right₀ (by norm_num) (le_max_right _ _)
-        refine ⟨_, rfl, ?_, le_trans g1 (le_max_left _ _), fun kl h => by cases h⟩
-        split <;> linarith
+        refine ⟨_, rfl, ?_, le_trans g1 (le_max_left _ _), (fun kl h => by cases h), ?_⟩
+        · split <;> linarith
+        · intro hfin
+          have hfin' : a.fin = true ∧ b'.fin = true := by simpa [Bool.and_eq_true] using hfin
+          split
+          · first | exact fqb hfin'.2 | exact fqa hfin'.1
+          · first | exact fqa hfin'.1 | exact fqb hfin'.2
   case pymin =>
     cases ha : argB st n.args 0 with
     | none => simp [ha] at hb
@@ -228,13 +236,18 @@ theorem stepB_sound (hf : WF f) {r : ℚ → ℚ} (hr : IsRN (qf f hf.hp) r) (E 
       | some b' =>
         simp only [ha, hbb, Option.some.injEq] at hb
         subst hb
-        obtain ⟨qa, e1, h1, g1, -⟩ := argB_rel hinv ha
-        obtain ⟨qb, e2, h2, g2, -⟩ := argB_rel hinv hbb
+        obtain ⟨qa, e1, h1, g1, -, fqa⟩ := argB_rel hinv ha
+        obtain ⟨qb, e2, h2, g2, -, fqb⟩ := argB_rel hinv hbb
         simp only [e1, e2, Option.bind_eq_bind, Option.bind_some]
         have hm1 : (2 : ℚ) ^ a.hi ≤ 2 ^ max a.hi b'.hi := zpow_le_zpow_right₀ (by norm_num) (le_max_left _ _)
         have hm2 : (2 : ℚ) ^ b'.hi ≤ 2 ^ max a.hi b'.hi := zpow_le_zpow_right₀ (by norm_num) (le_max_right _ _)
-        refine ⟨_, rfl, ?_, le_trans g1 (le_max_left _ _), fun kl h => by cases h⟩
-        split <;> linarith
+        refine ⟨_, rfl, ?_, le_trans g1 (le_max_left _ _), (fun kl h => by cases h), ?_⟩
+        · split <;> linarith
+        · intro hfin
+          have hfin' : a.fin = true ∧ b'.fin = true := by simpa [Bool.and_eq_true] using hfin
+          split
+          · first | exact fqb hfin'.2 | exact fqa hfin'.1
+          · first | exact fqa hfin'.1 | exact fqb hfin'.2
   case select =>
     cases hc : argB st n.args 0 with
     | none => simp [hc] at hb
@@ -247,32 +260,37 @@ theorem stepB_sound (hf : WF f) {r : ℚ → ℚ} (hr : IsRN (qf f hf.hp) r) (E 
         | some b' =>
           simp only [hc, ha, hbb, Option.some.injEq] at hb
           subst hb
-          obtain ⟨qc, e0, -, -, -⟩ := argB_rel hinv hc
-          obtain ⟨qa, e1, h1, g1, -⟩ := argB_rel hinv ha
-          obtain ⟨qb, e2, h2, g2, -⟩ := argB_rel hinv hbb
+          obtain ⟨qc, e0, -, -, -, fqc⟩ := argB_rel hinv hc
+          obtain ⟨qa, e1, h1, g1, -, fqa⟩ := argB_rel hinv ha
+          obtain ⟨qb, e2, h2, g2, -, fqb⟩ := argB_rel hinv hbb
           simp only [e0, e1, e2, Option.bind_eq_bind, Option.bind_some]
           have hm1 : (2 : ℚ) ^ a.hi ≤ 2 ^ max a.hi b'.hi := zpow_le_zpow_right₀ (by norm_num) (le_max_left _ _)
           have hm2 : (2 : ℚ) ^ b'.hi ≤ 2 ^ max a.hi b'.hi := zpow_le_zpow_right₀ (by norm_num) (le_max_right _ _)
-          refine ⟨_, rfl, ?_, le_trans g1 (le_max_left _ _), fun kl h => by cases h⟩
-          split <;> linarith
+          refine ⟨_, rfl, ?_, le_trans g1 (le_max_left _ _), (fun kl h => by cases h), ?_⟩
+          · split <;> linarith
+          · intro hfin
+            have hfin' : a.fin = true ∧ b'.fin = true := by simpa [Bool.and_eq_true] using hfin
+            split
+            · exact fqa hfin'.1
+            · exact fqb hfin'.2
   case not =>
     cases ha : argB st n.args 0 with
     | none => simp [ha] at hb
     | some a =>
       simp only [ha, Option.map_some, Option.some.injEq] at hb
       subst hb
-      obtain ⟨qa, e1, -, -, -⟩ := argB_rel hinv ha
+      obtain ⟨qa, e1, -, -, -, fqa⟩ := argB_rel hinv ha
       simp only [e1, Option.bind_eq_bind, Option.bind_some]
-      exact ⟨_, rfl, q2b_le _, clamp_ge f 0, fun kl h => by cases h⟩
+      exact ⟨_, rfl, q2b_le _, clamp_ge f 0, (fun kl h => by cases h), (fun h => by cases h)⟩
   case isfinite =>
     cases ha : argB st n.args 0 with
     | none => simp [ha] at hb
     | some a =>
       simp only [ha, Option.map_some, Option.some.injEq] at hb
       subst hb
-      obtain ⟨qa, e1, -, -, -⟩ := argB_rel hinv ha
+      obtain ⟨qa, e1, -, -, -, fqa⟩ := argB_rel hinv ha
       simp only [e1, Option.bind_eq_bind, Option.bind_some]
-      exact ⟨_, rfl, q2b_le _, clamp_ge f 0, fun kl h => by cases h⟩
+      exact ⟨_, rfl, q2b_le _, clamp_ge f 0, (fun kl h => by cases h), (fun h => by cases h)⟩
   all_goals first
     | (cases ha : argB st n.args 0 with
         | none => simp [ha] at hb
@@ -282,10 +300,10 @@ theorem stepB_sound (hf : WF f) {r : ℚ → ℚ} (hr : IsRN (qf f hf.hp) r) (E 
           | some b' =>
             simp only [ha, hbb, Option.some.injEq] at hb
             subst hb
-            obtain ⟨qa, e1, -, -, -⟩ := argB_rel hinv ha
-            obtain ⟨qb, e2, -, -, -⟩ := argB_rel hinv hbb
+            obtain ⟨qa, e1, -, -, -, fqa⟩ := argB_rel hinv ha
+            obtain ⟨qb, e2, -, -, -, fqb⟩ := argB_rel hinv hbb
             simp only [e1, e2, Option.bind_eq_bind, Option.bind_some]
-            exact ⟨_, rfl, q2b_le _, clamp_ge f 0, fun kl h => by cases h⟩)
+            exact ⟨_, rfl, q2b_le _, clamp_ge f 0, (fun kl h => by cases h), (fun h => by cases h)⟩)
     | (cases hb)
 
 end FAVerif.Ovf
@@ -296,7 +314,8 @@ open FAVerif.IR FAVerif.FP FAVerif.FPQ FAVerif.SoftRound FAVerif.Refine
 variable {f : Fmt}
 
 lemma binv_push {st : List B} {envQ : List ℚ} (hinv : BInv f st envQ) {b : B} {q : ℚ}
-    (h : |q| ≤ 2 ^ b.hi ∧ f.emin ≤ b.hi ∧ (∀ kl, b.lo = some kl → (2 : ℚ) ^ kl ≤ |q|)) : BInv f (st ++ [b]) (envQ ++ [q]) := by
+    (h : |q| ≤ 2 ^ b.hi ∧ f.emin ≤ b.hi ∧ (∀ kl, b.lo = some kl → (2 : ℚ) ^ kl ≤ |q|) ∧ (b.fin = true → |q| ≤ Lmax f)) :
+    BInv f (st ++ [b]) (envQ ++ [q]) := by
   refine ⟨by simp [hinv.len], ?_⟩
   intro i b' hb'
   by_cases hi : i < st.length
@@ -389,7 +408,7 @@ theorem overflow_free_refines (hf : WF f) (hL : 4 ≤ Lmax f) (nodes : List Node
   cases hb : boundsOf f E nodes [] with
   | none => simp [hb] at hchk
   | some st =>
-    simp only [hb, List.all_eq_true, decide_eq_true_eq] at hchk
+    simp only [hb, List.all_eq_true] at hchk
     have hb0 : BInv f [] [] := ⟨rfl, fun i b h => by simp at h⟩
     obtain ⟨envQ, hq, hbinv⟩ := boundsOf_sound hf (isRN_rne (qf f hf.hp)) E insQ hE nodes [] st [] hb0 hb
     have hS0 : ∀ S0 : ℚ → ℚ, evalNodesQS f (rne (qf f hf.hp)) (Ssoft f S0) insQ nodes [] = some envQ := by
@@ -401,12 +420,15 @@ theorem overflow_free_refines (hf : WF f) (hL : 4 ≤ Lmax f) (nodes : List Node
         rw [hbinv.len]
         by_contra hc; push Not at hc
         rw [List.getElem?_eq_none hc] at hi; cases hi
-      obtain ⟨q', e1, h1, -, -⟩ := hbinv.rel i st[i] (List.getElem?_eq_getElem hlt)
+      obtain ⟨q', e1, h1, -, -, hfin1⟩ := hbinv.rel i st[i] (List.getElem?_eq_getElem hlt)
       rw [hi] at e1; cases e1
       have h2 := hchk st[i] (List.getElem_mem hlt)
-      calc |q| ≤ 2 ^ st[i].hi := h1
-        _ ≤ 2 ^ kmax f := zpow_le_zpow_right₀ (by norm_num) h2
-        _ ≤ Lmax f := pow_kmax_le_Lmax f hf
+      rcases Bool.or_eq_true _ _ |>.mp h2 with hf1 | hf2
+      · exact hfin1 hf1
+      · have h3 : st[i].hi ≤ kmax f := by simpa using hf2
+        calc |q| ≤ 2 ^ st[i].hi := h1
+          _ ≤ 2 ^ kmax f := zpow_le_zpow_right₀ (by norm_num) h3
+          _ ≤ Lmax f := pow_kmax_le_Lmax f hf
     have hinv0 : Inv f [] #[] [] := ⟨rfl, rfl, fun i k hk => by simp at hk⟩
     obtain ⟨env, he, hinv⟩ := fwdS hf hL (fun t => t) lib ins insQ hins nodes [] kinds #[] [] envQ hinv0 hk (hS0 _) hbd
     exact ⟨env, envQ, he, hq, hinv, inv_finite hinv⟩
